@@ -6,7 +6,7 @@
 set -u
 ID="$1"; N="$2"; shift 2
 EXTRA="$*"
-OUT=/tmp/seeded_out/$ID
+OUT=${SEEDED_DIR:-/tmp/seeded_out}/$ID
 PATCH=$OUT/patch$N.diff
 DEMO=$OUT/demo$N.rs
 WT=/tmp/vt/${ID}_$N
@@ -31,9 +31,10 @@ say "unexpected failing tests: $FAILS"
 # demo with the change
 if [ -f "$DEMO" ]; then
   cp "$DEMO" tests/seeded_demo.rs
-  if cargo test --offline --features "derive bit-vec bytes generic-array max-encoded-len" --test seeded_demo >"$OUT/demo_with$N.log" 2>&1; then say "demo WITH change: passes (unexpected)"; DW=pass; else say "demo WITH change: fails (expected)"; DW=fail; fi
+  DEMO_CMD=${DEMO_CMD:-cargo test --offline --features "derive bit-vec bytes generic-array max-encoded-len" --test seeded_demo}
+  if sh -c "$DEMO_CMD" >"$OUT/demo_with$N.log" 2>&1; then say "demo WITH change: passes (unexpected)"; DW=pass; else say "demo WITH change: fails (expected)"; DW=fail; fi
   git apply -R "$PATCH"
-  if cargo test --offline --features "derive bit-vec bytes generic-array max-encoded-len" --test seeded_demo >"$OUT/demo_without$N.log" 2>&1; then say "demo WITHOUT change: passes (expected)"; DO=pass; else say "demo WITHOUT change: fails (unexpected)"; DO=fail; fi
+  if sh -c "$DEMO_CMD" >"$OUT/demo_without$N.log" 2>&1; then say "demo WITHOUT change: passes (expected)"; DO=pass; else say "demo WITHOUT change: fails (unexpected)"; DO=fail; fi
 else
   say "no demo file"; DW=na; DO=na
 fi
